@@ -97,6 +97,12 @@ def run(ctx):
         for d in ('fb', 'bf'):
             do(ctx, 'roundtrip', ['CliffordCircuit', 2, wit, [[[1, 0, 0, 0], 0], [[0, 1, 1, 1], 3]], mode, 'list', d], nontrivial=('w', mode, d), sample=(mode == 2))
     do(ctx, 'maps_corr', [2, wit], nontrivial='wm')
+    # LARGE registers: byte, word and cache-line boundaries of every packed or vectorised representation (8, 9, 16, 17, 33, 64, 65 qubits); model correspondence only
+    for N in gen.BIG[:5]:
+        prog = rprog(rng, ctx.model, N, rng.randint(3, 8))
+        for mode in (0, 2):
+            do(ctx, 'roundtrip', ['CliffordCircuit', N, prog, gen.rplist(rng, N, 3), mode, 'list', rng.choice(['fb', 'bf'])], nontrivial=('big', N, mode))
+        do(ctx, 'roundtrip', ['CliffordCircuit', N, prog, gen.rtableau(rng, ctx.model, N), 2, 'state', 'fb'], nontrivial=('bigs', N))
     for it in range(int(260 * B)):
         N = rng.randint(1, 5)
         L = rng.randint(1, 12 if ctx.tier == 'quick' else 40)
